@@ -123,8 +123,12 @@ impl StorageEngine {
         }
 
         // Create base data directory
+        #[cfg(inputlayer_verif)]
+        crate::verif_hooks::fs_point("engine.new.mkdir:pre");
         fs::create_dir_all(&config.storage.data_dir)?;
         fs::create_dir_all(config.storage.data_dir.join("metadata"))?;
+        #[cfg(inputlayer_verif)]
+        crate::verif_hooks::fs_point("engine.new.mkdir:post");
 
         // Initialize DD-native persist backend
         let persist_config = PersistConfig {
@@ -212,8 +216,12 @@ impl StorageEngine {
             Entry::Vacant(vacant) => {
                 // Create knowledge graph directory structure
                 let db_dir = self.config.storage.data_dir.join(name);
+                #[cfg(inputlayer_verif)]
+                crate::verif_hooks::fs_point("engine.createkg.mkdir:pre");
                 fs::create_dir_all(&db_dir)?;
                 fs::create_dir_all(db_dir.join("relations"))?;
+                #[cfg(inputlayer_verif)]
+                crate::verif_hooks::fs_point("engine.createkg.mkdir:post");
 
                 // Create knowledge graph instance (uses persist layer for durability)
                 let num_workers = self.config.storage.performance.num_threads;
@@ -295,11 +303,19 @@ impl StorageEngine {
         #[cfg(inputlayer_verif)]
         crate::verif_hooks::yield_point("se.drop.after_shards");
         if cleanup.data_dir.exists() {
+            #[cfg(inputlayer_verif)]
+            crate::verif_hooks::fs_point("engine.dropkg.rmdir:pre");
             let _ = fs::remove_dir_all(&cleanup.data_dir);
+            #[cfg(inputlayer_verif)]
+            crate::verif_hooks::fs_point("engine.dropkg.rmdir:post");
             // Sync parent directory to ensure directory deletion is durable
             if let Some(parent) = cleanup.data_dir.parent() {
                 if let Ok(dir) = fs::File::open(parent) {
+                    #[cfg(inputlayer_verif)]
+                    crate::verif_hooks::fs_point("engine.dropkg.dirsync:pre");
                     let _ = dir.sync_all();
+                    #[cfg(inputlayer_verif)]
+                    crate::verif_hooks::fs_point("engine.dropkg.dirsync:post");
                 }
             }
         }
@@ -1708,7 +1724,11 @@ impl StorageEngine {
         let load_start = std::time::Instant::now();
         for (i, kg_name) in kg_names.into_iter().enumerate() {
             let kg_dir = self.config.storage.data_dir.join(&kg_name);
+            #[cfg(inputlayer_verif)]
+            crate::verif_hooks::fs_point("engine.load.mkdir:pre");
             fs::create_dir_all(&kg_dir)?;
+            #[cfg(inputlayer_verif)]
+            crate::verif_hooks::fs_point("engine.load.mkdir:post");
 
             let kg = self.load_knowledge_graph_from_persist(&kg_name, kg_dir)?;
             self.knowledge_graphs
@@ -1846,6 +1866,8 @@ impl StorageEngine {
     fn save_knowledge_graphs_metadata(&self) -> StorageResult<()> {
         let start = Instant::now();
         let metadata_dir = self.config.storage.data_dir.join("metadata");
+        #[cfg(inputlayer_verif)]
+        crate::verif_hooks::fs_point("engine.kgsmeta.mkdir:pre");
         if let Err(e) = fs::create_dir_all(&metadata_dir) {
             eprintln!(
                 "[storage] ERROR create metadata dir: path={}, error={}",
@@ -1854,6 +1876,8 @@ impl StorageEngine {
             );
             return Err(e.into());
         }
+        #[cfg(inputlayer_verif)]
+        crate::verif_hooks::fs_point("engine.kgsmeta.mkdir:post");
 
         let knowledge_graphs: Vec<_> = self
             .knowledge_graphs
